@@ -172,10 +172,15 @@ class C16(Check):
             ps = [Encode('encode, 5 tokens', 5, required=req), Encode('encode, 6 tokens', 6, required=req), Encode('encode, 7 tokens', 7), Order()]
         if not hasattr(self, 'll'): self.ll = LangLex(self)
         self.server_stubs = install_server_stubs(self.I)
+        def _publish(I, ctx, srv):
+            # the notification channel is the environment: analysis runs (real Project::analyse), nothing is sent
+            I.call(ctx, L, 'Project::analyse', [FieldRef(deref(srv), I.crates[LS].structs['VHDLServer'].index('project'))]); return UNIT
+        self.I.add_models({'VHDLServer::publish_diagnostics': _publish, 'diagnostics::<impl VHDLServer>::publish_diagnostics': _publish})
         if not hasattr(self, 'pkit'): self.pkit = ProjectKit(self, log=self.log)
         all_ds = [DS.D_RECORDS, DS.D_TREE, DS.D_GENERIC, DS.D_COMB, DS.D_ZOO, DS.D_SEM, DS.D_SYN, DS.MUT_DESIGN]
         ds = all_ds if self.tier != 'quick' else [all_ds[self.seed % 8], all_ds[(self.seed + 5) % 8]]
         ps.append(TokensOnDesigns('the server on analysed designs: semanticTokens/full and /range', ds, required=('compared', 'tokens present', 'proper subset requested')))
+        ps.append(TokenCacheHistory('the token cache across an edit, two spellings of the URI', [DS.D_COMB, DS.MUT_DESIGN] if self.tier != 'quick' else [DS.D_COMB], required=('compared', 'different spellings')))
         self._parts = ps
         return ps
 
@@ -344,6 +349,96 @@ def lsp_tokens(D, fn, rng4):
                 out.append((line, start, ln, ty, mo))
             return out
         return dec(res), dec(part)
+    finally:
+        shutil.rmtree(root, ignore_errors=True)
+
+
+class TokenCacheHistory(DesignPart):
+    """tokens, an edit (through the same or another spelling of the file's URI), tokens again: the second answer belongs to the new text"""
+
+    def __init__(self, name, designs, required=(), time_cap=None):
+        self.name, self.designs = name, designs
+        self.required_classes = required; self.time_cap = time_cap
+        self.bounds = dict(designs=[d['name'] for d in designs], history='semanticTokens/full via spelling X of the URI; didChange (full text: one comment line inserted on top) via spelling Y; semanticTokens/full via X again; X, Y in {plain, an equivalent spelling (a percent-encoded letter; written /./ in the interpreter, where a Url is its path)}',
+                           oracle='the second answer is the first one moved down by one line')
+
+    def run(self, chk, ctx, inp, verify=True):
+        I = chk.I
+        D = self.designs[_choose(ctx, inp, 'design', len(self.designs))]
+        pr = self.project(chk, ctx, inp, D)
+        fi = _choose(ctx, inp, 'file', len(D['files'])); fn = D['files'][fi][1]
+        spell = ['/p/' + fn, '/p/./' + fn]
+        x = _choose(ctx, inp, 'request spelling', 2); y = _choose(ctx, inp, 'edit spelling', 2)
+        srv = make_server(chk, pr.agg)
+        wd = Agg('WorkDoneProgressParams', [Agg('Option', [], 'None', 0)]); prp = Agg('PartialResultParams', [Agg('Option', [], 'None', 0)])
+        def tokens():
+            r = I.call(ctx, LS, 'VHDLServer::semantic_tokens_full', [ValRef(srv), ValRef(Agg('SemanticTokensParams', [wd, prp, Agg('TextDocumentIdentifier', [url_of(spell[x])])]))])
+            if r.variant == 'None': raise Violation(f'no semantic tokens for {spell[x]}', 'none')
+            return decode(seq_items(deref(r.fields[0]).fields[0].fields[1]))
+        try:
+            t0 = tokens()
+            new_text = '-- edited\n' + D['files'][fi][2]
+            ev = Agg('TextDocumentContentChangeEvent', [Agg('Option', [], 'None', 0), Agg('Option', [], 'None', 0), py_str(new_text)])
+            params = Agg('DidChangeTextDocumentParams', [Agg('VersionedTextDocumentIdentifier', [url_of(spell[y]), BV(2, 32, True)]), VecV([ev])])
+            I.call(ctx, LS, 'VHDLServer::text_document_did_change_notification', [ValRef(srv), ValRef(params)])
+            t1 = tokens()
+        except Panic as p:
+            raise Violation('a handler panics: ' + str(p), 'panic')
+        if not verify: return t0, t1
+        ctx.obligations += 1
+        want = [(ln + 1, st, le, ty, mo) for (ln, st, le, ty, mo) in t0]
+        if t1 != want:
+            raise Violation(f'{fn}: tokens requested via {spell[x]!r} after an edit via {spell[y]!r} do not belong to the new text: {len(t1)} tokens, first {t1[:2]}, expected {want[:2]}', 'stale')
+        ctx.cover('compared')
+        if x != y: ctx.cover('different spellings')
+        return None
+
+    def harness(self, chk):
+        self.bases(chk)
+        def h(ctx):
+            ctx.step_limit = max(ctx.step_limit, 60_000_000)
+            self.run(chk, ctx, SymInputs(ctx))
+        return h
+
+    def replay_case(self, chk, w, v):
+        D = self.designs[w.get('design', 0) % len(self.designs)]; fn = D['files'][w.get('file', 0) % len(D['files'])][1]
+        t0, t1 = lsp_token_history(D, fn, w.get('request spelling', 0) % 2, w.get('edit spelling', 0) % 2)
+        return t1 != [(ln + 1, st, le, ty, mo) for (ln, st, le, ty, mo) in (t0 or [])]
+
+    def translator_validation(self, chk): return 0, []
+
+
+def lsp_token_history(D, fn, x, y):
+    import tempfile, shutil, os
+    from .c14 import LspClient, lsp_binary
+    from .. import build
+    os.makedirs(os.path.join(build.BUILD, 'scratch'), exist_ok=True)
+    root = tempfile.mkdtemp(prefix='c16h-', dir=os.path.join(build.BUILD, 'scratch'))
+    try:
+        libs = {}
+        for lib, f, t in D['files']:
+            libs.setdefault(lib, []).append(f)
+            with open(os.path.join(root, f), 'w', encoding='latin-1') as fh: fh.write(t)
+        with open(os.path.join(root, 'vhdl_ls.toml'), 'w') as fh:
+            fh.write('[libraries]\n' + ''.join(f'{k}.files = [{", ".join(repr(v2) for v2 in v)}]\n' for k, v in libs.items()))
+        c = LspClient(lsp_binary(), root)
+        # the second spelling percent-encodes the first letter of the file name: another Url value, the same file after decoding
+        spell = ['file://' + os.path.join(root, fn), 'file://' + root + '/%%%02X' % ord(fn[0]) + fn[1:]]
+        def dec(r):
+            if r is None: return None
+            d = r['data']; out = []; line = 0; start = 0
+            for k in range(0, len(d), 5):
+                dl, ds, ln, ty, mo = d[k:k + 5]
+                line += dl; start = start + ds if dl == 0 else ds
+                out.append((line, start, ln, ty, mo))
+            return out
+        try:
+            t0 = dec(c.request('textDocument/semanticTokens/full', {'textDocument': {'uri': spell[x]}}).get('result'))
+            text = dict((f, t) for _, f, t in D['files'])[fn]
+            c.notify('textDocument/didChange', {'textDocument': {'uri': spell[y], 'version': 2}, 'contentChanges': [{'text': '-- edited\n' + text}]})
+            t1 = dec(c.request('textDocument/semanticTokens/full', {'textDocument': {'uri': spell[x]}}).get('result'))
+        finally: c.stop()
+        return t0, t1
     finally:
         shutil.rmtree(root, ignore_errors=True)
 
